@@ -20,4 +20,12 @@ theorem patch_wiring :
 theorem normalize_wiring :
     Gen.normalize_body = "s = vals.sum() ; if not np.isclose(s, 0): vals /= s" := rfl
 
+/-- further text of the current source that the model takes for granted (glue between library calls: argument lists, output
+allocation, loop bodies) -- a change there is a change of the tie -/
+theorem text_pins_more :
+    Gen.bin_centers_expr = "np.linspace(radius_inner, radius - width, n_bins) + width / 2" ∧
+    Gen.bin_default_n_expr = "int(np.round(radius - radius_inner))" ∧
+    Gen.disk_aa_expr = "radial_bins(centerX, centerY, imageSizeX, imageSizeY, radius, n_bins=1, use_sparse=False)[0]" ∧
+    Gen.ring_aa_expr = "radial_bins(centerX, centerY, imageSizeX, imageSizeY, radius=radius, radius_inner=radius_inner, n_bins=1, use_sparse=False)[0]" := ⟨rfl, rfl, rfl, rfl⟩
+
 end C18
